@@ -455,7 +455,11 @@ def main(argv=None):
             return do_replay(a.replay, a.json)
         if not a.prop:
             ap.error("property id required")
-        seed = int(os.environ.get("VERIF_SEED", "0") or 0)
+        raw = os.environ.get("VERIF_SEED", "0") or "0"
+        try:
+            seed = int(raw)
+        except ValueError:
+            seed = prng.derive("seed-text", raw) % (1 << 31)
         return run_check(a.prop, a.tier, seed, a.runs, a.workers, write_evidence=not a.no_evidence,
                          mutants=(a.tier == "thorough" and not a.no_mutants and not a.no_evidence))
     except core.HarnessError as e:
